@@ -97,11 +97,22 @@ func (w *typeExprWalker) walk(x ast.Node) bool {
 
 func (w *typeExprWalker) inspectInner(x ast.Expr) bool {
 	parens, ok := x.(*ast.ParenExpr)
-	shouldInspect := ok &&
-		typep.IsTypeExpr(w.info, parens.X) &&
-		(astp.IsStarExpr(parens.X) || astp.IsFuncType(parens.X) || isRecvChanType(parens.X))
+	if !ok {
+		return true
+	}
+	// ((*T))(x): whatever the nesting, one pair of parenthesis is required.
+	inner := parens.X
+	for {
+		p, ok := inner.(*ast.ParenExpr)
+		if !ok {
+			break
+		}
+		inner = p.X
+	}
+	shouldInspect := typep.IsTypeExpr(w.info, inner) &&
+		(astp.IsStarExpr(inner) || astp.IsFuncType(inner) || isRecvChanType(inner))
 	if shouldInspect {
-		ast.Inspect(parens.X, w.walk)
+		ast.Inspect(inner, w.walk)
 		return false
 	}
 	return true
